@@ -269,7 +269,7 @@ int main(void)
 
 #ifdef PROP_C13
 	PROP(same_cfg(&before, chk), "C13: verify leaves key, alg, claim policy, leeways and callback unchanged");
-	PROP(vj_equal(pay_copy, chk->c.payload), "C13: verify leaves the checker's expected-claims object unchanged");
+	PROP(vj_equal_copy(pay_copy, chk->c.payload), "C13: verify leaves the checker's expected-claims object unchanged");
 #endif
 
 	/* ------------------------------------------------ run 2 */
